@@ -2013,6 +2013,54 @@ def replay_witnesses(ctx, pp, cfg):
         ctx.correspond("corpus-trim", [w], [line], [sx(obs)], model_outputs=[mo])
 
 
+# ---- C-level callables: the supported single-argument builtins, and builtins / builtin methods of other arities -------
+def builtin_cases(pp):
+    """(name, grammar factory, input, expected as_list / probe) — expected values are computed from the documented
+    protocol: the callable receives the trailing k of (s, loc, toks) it accepts; None keeps, anything else replaces"""
+    nums = lambda: pp.Word("0123456789").add_parse_action(lambda t: int(t[0]))
+    many = lambda: nums()[1, ...]
+    out = []
+    text = "  3 1 2"
+    for f, exp in [(sum, [6]), (len, [3]), (sorted, [1, 2, 3]), (list, [3, 1, 2]), (tuple, [(3, 1, 2)]), (max, [3]), (min, [1]),
+                   (any, [True]), (all, [True]), (set, [{1, 2, 3}])]:
+        out.append((f"supported builtin {f.__name__}", (lambda f=f: many().add_parse_action(f)), text, exp, None))
+    # `reversed` returns an iterator: whatever the library makes of it, it is called with the tokens only
+    # builtin METHODS / functions accepting other argument counts (not in the supported set): trailing-k protocol
+    out.append(("str.format with three fields (a varargs builtin method: all of s, loc, toks)",
+                lambda: pp.Word("ab").add_parse_action("{1}:{2[0]}:{0}".format), "  ab", ["2:ab:  ab"], None))
+    d = {}
+    out.append(("dict.setdefault (a two-argument builtin method: loc, toks; returns the tokens)",
+                lambda: pp.Word("ab").add_parse_action(d.setdefault), "  ab", ["ab"], (d, {2: ["ab"]})))
+    lst = []
+    out.append(("list.append (a one-argument builtin method: toks; returns None)",
+                lambda: pp.Word("ab").add_parse_action(lst.append), "  ab", ["ab"], (lst, [["ab"]])))
+    return out
+
+
+def check_builtins(ctx, pp):
+    n = 0
+    for name, mk, s, exp, probe in builtin_cases(pp):
+        n += 1
+        try:
+            got = mk().parse_string(s, parse_all=True).as_list()
+        except Exception as ex:  # noqa: BLE001
+            got = f"{type(ex).__name__}: {ex}"
+        side = None
+        if probe is not None:
+            box, want = probe
+            lst_ = lambda v: list(v) if isinstance(v, (list, tuple, pp.ParseResults)) else repr(v)
+            seen = {k: lst_(v) for k, v in box.items()} if isinstance(box, dict) else [lst_(v) for v in box]
+            if seen != want:
+                side = (seen, want)
+        if got != exp or side:
+            ctx.fail_input(f"C-level callable as parse action: {name}", {"builtin": name, "input": s},
+                           {"as_list": repr(exp), "side_effect": repr(side[1]) if side else None},
+                           {"as_list": repr(got), "side_effect": repr(side[0]) if side else None},
+                           theorem="PP.TrimArity.called_once_with_trailing_args (oracle only: C-level callables are outside "
+                                   "the abstract callable class)", how="harness.props.c13.check_builtins")
+    ctx.count_cases("oracle:builtin-callables", n)
+
+
 def run(ctx):
     pp = common.import_pyparsing()
     facts = live_facts(pp)
@@ -2070,6 +2118,15 @@ def run(ctx):
     seeds["gate-dbg"] = check_gate(ctx, pp, stream="gate-dbg", cases=gen_gate_cases(
         ctx, tag="gate-dbg", n=ctx.budget(350, 4000), p_hist=0.3, p_focus=0.35, p_dbg=0.75, vary_ws=True,
         depths=(1, 1, 2, 2, 3)), dbg_configs=DBG_CONFIGS)
+    # "an action fires only for the match that is actually returned" with memoization on: a container with call_during_try
+    # over children with ordinary token-changing actions, trial-parsed and then really parsed at one location (oracle only;
+    # templates shared with C02)
+    from . import c02
+    c02.run_oracle(ctx, "oracle:trial-then-real-under-packrat", c02.trykey_jobs(ctx, ctx.budget(200, 2000), tag="C13"),
+                   what="with packrat enabled the returned match does not carry the results of its elements' parse actions "
+                        "(the trial parse's result was served for the real parse)",
+                   theorem="PP.ActionGate.fired_ids_firable (real parse: every action of the returned match fires) / oracle only")
+    check_builtins(ctx, pp)
     outside_class_note(ctx, pp)
     if ctx.broken and not ctx.fail_inputs:
         deep_search(ctx, pp, cfg, seeds)
@@ -2176,6 +2233,13 @@ def replay(data):
         c = _nest_case_of(case)
         obs, oacc, o_is_class, iacc, i_is_class, clevel = run_nest_real(pp, *c)
         return oracle_nest(c[0], oacc, o_is_class, iacc, i_is_class, clevel, c[4], obs) is not None
+    if "builtin" in case:
+        c2 = common.Ctx("C13", "quick", 0)
+        check_builtins(c2, pp)
+        return bool(c2.fail_inputs)
+    if "prog" in case and "root" in case:
+        from . import c02
+        return bool(c02.oracle_job(dict(prog=case["prog"], root=case["root"], inputs=[case["input"]]))[1])
     if "tree" in case:
         t = _tup(case["tree"])
         _, log = run_gate_real(pp, t, case["s"], case["da"])
